@@ -1,4 +1,4 @@
-// verif:properties C11
+// verif:properties C11 C17
 package uhppote
 
 // C11 - discovery returns exactly the controllers that answered, despite network noise.
